@@ -7,7 +7,7 @@
     All property models are required QUALIFIED (they define [run], [arg_off], [vo_ndt] ... each). *)
 From Coq Require Import ZArith List Bool String.
 From V Require Import Base.Int Base.IO.
-From V Require Model.C01 Model.C02 Model.C03 Model.C04 Model.C05 Model.C06 Model.C07 Model.C08 Model.C09
+From V Require Model.C01 Model.C01b Model.C02 Model.C03 Model.C04 Model.C05 Model.C06 Model.C07 Model.C08 Model.C09
                Model.C10 Model.C11 Model.C12 Model.C13 Model.C14 Model.C16 Model.C17 Model.C18 Model.C19.
 From V Require Model.Items Model.Strftime Model.Format Model.Scan Model.Parse Model.Parsed
                Model.Date Model.Time Model.DateTime Model.TimeDelta.
@@ -23,7 +23,7 @@ Fixpoint first_run (rs : list runner) (op : bytes) (args : list val) : val :=
   | r :: rest => let v := r op args in if is_noop v then first_run rest op args else v
   end.
 Definition owners : list runner :=
-  [Model.C01.run; Model.C02.run; Model.C03.run; Model.C04.run; Model.C05.run; Model.C06.run; Model.C07.run;
+  [Model.C01b.run (* = Model.C01.run plus the ops of Model/C01b.v *); Model.C02.run; Model.C03.run; Model.C04.run; Model.C05.run; Model.C06.run; Model.C07.run;
    Model.C08.run; Model.C09.run; Model.C10.run; Model.C11.run; Model.C12.run; Model.C13.run; Model.C14.run;
    Model.C16.run; Model.C17.run; Model.C18.run; Model.C19.run].
 
